@@ -272,10 +272,10 @@ func (e *env) judge(ci *caseIn) []byte {
 		switch {
 		case dropCause != "":
 			key = "not-idempotent:reimport-after-drop:" + dropCause
-		case hazard != "":
-			key = "not-idempotent:" + hazard
 		case importDeclsWithComments(fsetX, fx):
 			key = "not-idempotent:import-decls-merged-with-comments"
+		case hazard != "":
+			key = "not-idempotent:" + hazard
 		}
 		e.viol(ci, key, ci.witness(map[string]any{"once": string(out), "twice": string(out2)}), "%s is not idempotent on %s: %s", ci.entry, ci.origin, diffAt(string(out), string(out2)))
 	default:
